@@ -172,17 +172,32 @@ func checkC06(c *fw.Ctx) {
 		}
 	}
 
-	// 2. request loop
+	// 2. request loop (the loop may live in an unexported helper of VerifyEventSignatures;
+	// the pseudo-ID mapping check builds its own requests and is analysed separately)
 	rule := "2 requests"
+	stopMapping := func(f *ssa.Function) bool { return fw.FuncName(f) == "gmsl.validateMXIDMappingSignatures" }
+	deep := fw.DeepInstrs(fn, stopMapping)
 	for _, f := range []struct{ field, what string }{{"Message", "redacted"}, {"AtTS", "ts"}, {"ServerName", "key"}, {"ValidityCheckingFunc", "validity"}} {
-		stores := fw.FieldStores(fn, "VerifyJSONRequest", f.field)
-		c.Check(len(stores) == 1, rule, "VerifyJSONRequest."+f.field+" is set once", c.P.Pos(fn.Pos()), "", fmt.Sprintf("%d stores", len(stores)))
-		for _, st := range stores {
-			s := fw.Sig(st.Val)
+		nst := 0
+		for _, di := range deep {
+			st, isSt := di.Instr.(*ssa.Store)
+			if !isSt {
+				continue
+			}
+			fa, isFA := st.Addr.(*ssa.FieldAddr)
+			if !isFA {
+				continue
+			}
+			sty := derefStructOf(fa.X.Type())
+			if sty == nil || sty.Field(fa.Field).Name() != f.field || !strings.HasSuffix(fw.Short(strings.TrimPrefix(fa.X.Type().String(), "*")), "VerifyJSONRequest") {
+				continue
+			}
+			nst++
+			s := fw.SigIn(di.Fr, st.Val)
 			var ok bool
 			switch f.what {
 			case "redacted":
-				ok = fw.DerivesFrom(st.Val, fw.FlowSpec{IsSource: fw.IsResultOf(redactName, 0), All: true})
+				ok = fw.DerivesFromIn(st.Val, di.Fr, fw.FlowSpec{IsSource: fw.IsResultOf(redactName, 0), All: true})
 			case "ts":
 				ok = strings.HasSuffix(s, ".OriginServerTS(param:e)")
 			case "key":
@@ -198,21 +213,56 @@ func checkC06(c *fw.Ctx) {
 			}
 			c.Check(ok, rule, "VerifyJSONRequest."+f.field+" carries the "+map[string]string{"redacted": "redacted event", "ts": "event's origin_server_ts", "key": "required server", "validity": "room version's validity rule"}[f.what], c.P.Pos(fw.InstrPos(st)), s, "unexpected value "+s)
 			// unfiltered: inside the range loop over needed, no extra condition
-			atoms := atomise(st.Block(), nil, func(s string) bool {
-				return containsAll(s, "param:userIDForSender == nil") || strings.HasPrefix(s, "next(range(")
-			})
-			c.Check(len(atoms) == 0, rule, "every required server gets a verification request", c.P.Pos(fw.InstrPos(st)), "", "the request for a required server is built only under an extra condition: "+strings.Join(atoms, ","))
+			var extra []string
+			for _, fact := range fw.DeepFacts(di.Fr, st.Block()) {
+				t := strings.TrimPrefix(fact, "!")
+				if containsAll(t, "param:userIDForSender == nil") || strings.HasPrefix(t, "next(range(") {
+					continue
+				}
+				extra = append(extra, fact)
+			}
+			c.Check(len(extra) == 0, rule, "every required server gets a verification request", c.P.Pos(fw.InstrPos(st)), "", "the request for a required server is built only under an extra condition: "+strings.Join(extra, ","))
 		}
+		c.Check(nst == 1, rule, "VerifyJSONRequest."+f.field+" is set once", c.P.Pos(fn.Pos()), "", fmt.Sprintf("%d stores", nst))
 	}
 	// 3. success gates
 	succ := fw.ErrNilSuccess(fn, fw.ErrIndex(fn), nil)
 	c.CheckGate("3 success", fn, "VerifyEventSignatures", fw.GuardCallErrNil("VerifyJSONs err == nil", func(n string) bool { return strings.HasSuffix(n, ".VerifyJSONs") }), succ)
 	c.CheckGate("3 success", fn, "VerifyEventSignatures", fw.GuardCallErrNil("GetRoomVersion", fw.NameIs("gmsl.GetRoomVersion")), succ)
 	c.CheckGate("3 success", fn, "VerifyEventSignatures", fw.GuardCallErrNil("RedactEventJSON", redactName), succ)
-	checkAllResults(c, "3 success", fn, "VerifyEventSignatures")
+	// the results loop lives where VerifyJSONs is called (VerifyEventSignatures or its helper)
+	host := fn
+	for _, f := range fw.RegionOf(fn, stopMapping) {
+		if len(fw.CallsTo(f, false, func(n string) bool { return strings.HasSuffix(n, ".VerifyJSONs") })) > 0 {
+			host = f
+		}
+	}
+	checkAllResults(c, "3 success", host, "VerifyEventSignatures")
 	if v := mustFunc(c, "3 success", "validateMXIDMappingSignatures"); v != nil {
 		checkAllResults(c, "3 success", v, "validateMXIDMappingSignatures")
 		c.CheckGate("3 success", v, "validateMXIDMappingSignatures", fw.GuardCallErrNil("VerifyJSONs err == nil", func(n string) bool { return strings.HasSuffix(n, ".VerifyJSONs") }), fw.ErrNilSuccess(v, fw.ErrIndex(v), fw.IsTail(func(n string) bool { return strings.HasSuffix(n, ".VerifyJSONs") })))
+	}
+
+	// 3b. the batch entry point verifies every event of the batch on its own
+	if all := mustFunc(c, "3 success", "VerifyAllEventSignatures"); all != nil {
+		n := 0
+		for _, di := range fw.DeepInstrs(all, func(f *ssa.Function) bool { return f == fn }) {
+			call, isCall := di.Instr.(ssa.CallInstruction)
+			if !isCall || fw.CalleeName(call) != "gmsl.VerifyEventSignatures" {
+				continue
+			}
+			n++
+			var extra []string
+			for _, fact := range fw.DeepFacts(di.Fr, call.Block()) {
+				t := strings.TrimPrefix(fact, "!")
+				if strings.HasPrefix(t, "next(range(") || (strings.Contains(t, "phi(-1|") && strings.Contains(t, " < builtin.len(")) {
+					continue // the loop over the batch
+				}
+				extra = append(extra, fact)
+			}
+			c.Check(len(extra) == 0, "3 success", "VerifyAllEventSignatures verifies every event of the batch", c.P.Pos(call.Pos()), "", "VerifyEventSignatures runs for an event of the batch only under "+strings.Join(extra, ",")+": another event's verdict can be reused (event IDs of room versions 1-2 are sender-chosen)")
+		}
+		c.Min("3 success VerifyAllEventSignatures per-event sites", n, 1)
 	}
 
 	// 4. version columns + wrappers
